@@ -43,7 +43,7 @@ def make_config(rng: random.Random):
     cfg = dict(ny=ny, nx=nx, layout=layout, ns=ns, dtype=dtype, nodata=nodata, crs=rng.choice(["EPSG:3857", "EPSG:4326", "EPSG:32633", "EPSG:3577"]), rotated=rng.random() < 0.2,
                blocksize=rng.choice([None, None, 16, 64, 100, 256, 512, 48]), ovr_blocksize=rng.choice([None, None, 16, 64]), overviews=ovr, windowed=rng.random() < 0.25,
                intermediate=rng.choice([False, False, True, "zstd", {"compress": "lzw"}]), dest=rng.choice(["file", "file", "mem"]), existing=rng.choice([None, None, "no-overwrite", "overwrite"]),
-               api=rng.choice(["write_cog", "write_cog", "layers"]), data_seed=rng.randint(0, 10**6), nodata_via=rng.choice(["attrs", "attrs", "kw", "kw-over-attrs"]))
+               api=rng.choice(["write_cog", "write_cog", "layers"]), data_seed=rng.randint(0, 10**6), nodata_via=rng.choice(["attrs", "attrs", "kw", "kw-over-attrs"]), data_kind=rng.choice(["random", "patchy", "patchy", "constant"]))
     if isinstance(ovr, list):
         # GDAL refuses level lists that collapse the image to 1x1 more than once: keep levels that leave >= 2 px on the longer side
         ovr = [L for L in ovr if max(ny, nx) / L >= 2]
@@ -53,6 +53,32 @@ def make_config(rng: random.Random):
     if cfg["dest"] == "mem":
         cfg["existing"] = None
     return cfg
+
+
+def _patches(data, layout, kind, nodata, nprng) -> None:
+    """Real rasters have large constant areas (zeros, fill value, a class code): whole internal tiles of one value, in all bands or in some."""
+    if kind == "random":
+        return
+    yx = (slice(None),) if layout == "SYX" else ()
+    ny, nx = (data.shape[1:] if layout == "SYX" else data.shape[:2])
+    if kind == "constant":
+        data[...] = 0 if nprng.random() < 0.6 else 7
+        return
+    vals = [0, 0, 7] + ([] if nodata is None or not np.isfinite(nodata) else [nodata])
+    for _ in range(int(nprng.integers(1, 5))):
+        y0, x0 = int(nprng.integers(0, ny)), int(nprng.integers(0, nx))
+        h, w = int(nprng.choice([16, 64, 130, 300, ny])), int(nprng.choice([16, 64, 130, 300, nx]))
+        if nprng.random() < 0.5:
+            y0, x0 = (y0 // 16) * 16, (x0 // 16) * 16
+        v = vals[int(nprng.integers(0, len(vals)))]
+        if data.ndim == 3 and nprng.random() < 0.3:
+            b = int(nprng.integers(0, data.shape[0 if layout == "SYX" else 2]))  # one band only
+            if layout == "SYX":
+                data[b, y0:y0 + h, x0:x0 + w] = v
+            else:
+                data[y0:y0 + h, x0:x0 + w, b] = v
+        else:
+            data[yx + (slice(y0, y0 + h), slice(x0, x0 + w))] = v
 
 
 def build_array(cfg):
@@ -73,6 +99,7 @@ def build_array(cfg):
     else:
         info = np.iinfo(dt)
         data = nprng.integers(max(info.min, -30000), min(info.max, 30000), size=shape, dtype=np.int64).astype(dt)
+    _patches(data, layout, cfg.get("data_kind", "random"), cfg["nodata"], nprng)
     import xarray as xr
     from odc.geo.xr import xr_coords
 
@@ -130,6 +157,9 @@ def run_config(mon: Monitor, cfg, workdir: str) -> None:
     wit = lambda extra=None: {**cfg, **(extra or {})}
     cls = f"{layout}|{cfg['api']}|{cfg['dest']}"
     via = cfg.get("nodata_via", "attrs") if cfg["nodata"] is not None else "none"
+    if cfg.get("data_kind", "random") != "random":
+        # coverage marker: constant areas x write path x fill value (what block-skipping shortcuts would key on)
+        mon.ok("workload", cls=f"const-areas|{'windowed' if cfg['windowed'] else 'whole'}|{'nodata-nonzero' if cfg['nodata'] not in (None, 0) else 'nodata-0-or-unset'}", sig=hsig("wl", repr(cfg)))
     kw = {}
     if cfg["blocksize"] is not None:
         kw["blocksize"] = cfg["blocksize"]
@@ -277,7 +307,7 @@ def run(mon: Monitor, tier: str, seed: int, shard: int, nshards: int) -> None:
                 mon.error("config", e)
         mon.case = None
         for pt, n in [("readback", 200), ("structure.blocks", 200), ("structure.overviews", 200), ("structure.external-overviews", 20), ("overwrite-protocol", 30), ("overwrite-protocol|refuse", 15),
-                      ("overwrite-protocol|replace", 4), ("structure.overviews|big|default", 3), ("structure.overviews|small|default", 20), ("readback|SYX|write_cog|mem", 2), ("readback|YXS|write_cog|file", 3), ("readback|YX|write_cog|file|nodata-kw", 2), ("readback|YX|write_cog|file|nodata-kw-over-attrs", 1)]:
+                      ("overwrite-protocol|replace", 4), ("structure.overviews|big|default", 3), ("structure.overviews|small|default", 20), ("readback|SYX|write_cog|mem", 2), ("readback|YXS|write_cog|file", 3), ("readback|YX|write_cog|file|nodata-kw", 1), ("readback|YX|write_cog|file|nodata-kw-over-attrs", 1), ("workload|const-areas|windowed|nodata-nonzero", 3), ("workload|const-areas|whole|nodata-nonzero", 10)]:
             mon.floor(pt, n)
     finally:
         shutil.rmtree(workdir, ignore_errors=True)
